@@ -123,6 +123,7 @@ structure Cfg4 where
   sliceID : Nat := 0
   defaultTC : Nat := 3
   qfiToTC : List (Nat × Nat) := []
+  ctrSize : Nat := 0             -- cells of the PDR counter in the pipeline the switch serves (0: as in the shipped P4Info)
   deriving Repr
 
 structure TP where               -- tunnelParams
@@ -343,6 +344,10 @@ def clearedTables : List Nat :=
 
 def arrSize (l : List Arr) (id : Nat) : Nat := ((l.find? (·.id == id)).map (·.size)).getD 0
 
+/-- size of `counterIDsPool`: the size the served P4Info declares for the pre-QoS counter -/
+def ctrCells (cfg : Cfg4) : Nat :=
+  if cfg.ctrSize = 0 then arrSize info.counters Gen.P4Constants.CounterPreQosPipePreQosCounter else cfg.ctrSize
+
 /-- `SetUpfInfo` + the first `tryConnect`: pools, `clearDatapathState` against whatever the switch still holds -/
 def start (cfg : Cfg4) (srv : Srv) (injs : List Inj) : Ctx × Bool :=
   let st : St := {
@@ -355,7 +360,7 @@ def start (cfg : Cfg4) (srv : Srv) (injs : List Inj) : Ctx × Bool :=
   let (c, r) := write c dels
   if r ≠ .ok then (c, false) else
   let st := { c.st with
-    ctrFree := List.range (arrSize info.counters Gen.P4Constants.CounterPreQosPipePreQosCounter),
+    ctrFree := List.range (ctrCells cfg),
     appFree := (List.range (arrSize info.meters Gen.P4Constants.MeterPreQosPipeAppMeter - 1)).map (· + 1),
     sessFree := (List.range (arrSize info.meters Gen.P4Constants.MeterPreQosPipeSessionMeter - 1)).map (· + 1) }
   let c := { c with st := st }
